@@ -69,6 +69,12 @@ type vsubCfg struct {
 	// GetAlls: how many times Service.GetAll(height, namespace 0) may be started concurrently with
 	// subscription 0, for the height subscription 0 is retrieving (or will retrieve next)
 	GetAlls int `json:"getalls"`
+	// LateSubs: subscriptions are not opened at configuration time but by the event sub:i
+	LateSubs bool `json:"late_subs"`
+	// Lifecycle > 0: Stop and Start of the ONE service instance are events that may occur in any
+	// state (Stop twice, Start twice without Stop, Stop then Start = restart), at most that many
+	// lifecycle events per history
+	Lifecycle int `json:"lifecycle"`
 	// event switches
 	Cancel  bool `json:"cancel"`
 	Stop    bool `json:"stop"`
@@ -78,8 +84,8 @@ type vsubCfg struct {
 }
 
 func (c vsubCfg) String() string {
-	return fmt.Sprintf("%s: feed=%s same-ns=%v getalls=%d subs=%d prefill=%d headers=%d answers=%s hdrgetter-blocks=%v cancel=%v stop=%v fclose=%v hdrstop=%v depth<=%d",
-		c.Name, c.feedName(), c.SameNS, c.GetAlls, c.Subs, c.Prefill, c.Headers, strings.Join(c.Answers, "/"), c.HdrGetterBlocks, c.Cancel, c.Stop, c.FClose, c.HdrStop, c.Depth)
+	return fmt.Sprintf("%s: feed=%s late-subs=%v lifecycle-events<=%d same-ns=%v getalls=%d subs=%d prefill=%d headers=%d answers=%s hdrgetter-blocks=%v cancel=%v stop=%v fclose=%v hdrstop=%v depth<=%d",
+		c.Name, c.feedName(), c.LateSubs, c.Lifecycle, c.SameNS, c.GetAlls, c.Subs, c.Prefill, c.Headers, strings.Join(c.Answers, "/"), c.HdrGetterBlocks, c.Cancel, c.Stop, c.FClose, c.HdrStop, c.Depth)
 }
 
 func (c vsubCfg) feedName() string {
@@ -336,7 +342,7 @@ func (s *vsubSys) block(c *vsubCall) vsubAns {
 	// one retrieval attempt = one getAll = (header getter call,) share getter call
 	if c.kind == "hg" || !s.cfg.HdrGetterBlocks {
 		sb.attempts++
-		if s.stopped || sb.cancelled {
+		if sb.stopSeen || sb.cancelled {
 			sb.late++
 		}
 	}
@@ -359,6 +365,11 @@ type vsubSub struct {
 	feed   chan *header.ExtendedHeader
 	ch     <-chan *SubscriptionResponse
 
+	created   bool // Subscribe was called
+	stopSeen  bool // the service was stopped (or was not running) at some moment of the stream's life
+	swapped   bool // Start was called on the running service while the stream was live
+	restarted bool // the service was started again after the stop the stream saw
+
 	taken      int // number of headers of the feed handed to the subscription
 	readN      int // responses the consumer has read so far
 	cancelled  bool
@@ -371,17 +382,21 @@ type vsubSub struct {
 	pending    *vsubCall
 }
 
-func (sb *vsubSub) terminated(stopped bool) bool {
-	return stopped || sb.cancelled || sb.fclosed || sb.overflowed
+func (sb *vsubSub) terminated() bool {
+	return sb.stopSeen || sb.cancelled || sb.fclosed || sb.overflowed
 }
 
-func (sb *vsubSub) cause(stopped bool) string {
+func (sb *vsubSub) cause() string {
 	switch {
 	case sb.overflowed:
 		return "overflow"
 	case sb.cancelled:
 		return "cancel"
-	case stopped:
+	case sb.stopSeen && sb.swapped:
+		return "service-stop/start-called-twice-before"
+	case sb.stopSeen && sb.restarted:
+		return "service-stop/restarted-since"
+	case sb.stopSeen:
 		return "service-stop"
 	case sb.fclosed:
 		return "feed-close"
@@ -418,7 +433,9 @@ type vsubSys struct {
 	subs    []*vsubSub
 	ga      vsubGA
 	failed  map[int]string // namespace*1000+height -> kinds of failure answers given to retrievals of it
-	stopped bool
+	stopped bool           // the service is not running
+	life    int            // lifecycle events (stop/start) applied so far
+	feeds   chan chan *header.ExtendedHeader
 	err     error
 
 	// set by Check (the non-perturbing part of an observation)
@@ -459,6 +476,7 @@ func (s *vsubSys) total() int { return s.cfg.Prefill + s.cfg.Headers }
 func newVsubSys(cfg vsubCfg, chain *vsubChain) *vsubSys {
 	s := &vsubSys{cfg: cfg, chain: chain, feed: cfg.feedHeights(), failed: map[int]string{}}
 	feeds := make(chan chan *header.ExtendedHeader, cfg.Subs)
+	s.feeds = feeds
 	headerSub := func(ctx context.Context) (<-chan *header.ExtendedHeader, error) {
 		f := make(chan *header.ExtendedHeader) // unbuffered, like nodebuilder/header.Service.Subscribe
 		feeds <- f
@@ -470,18 +488,11 @@ func newVsubSys(cfg vsubCfg, chain *vsubChain) *vsubSys {
 		return s
 	}
 	for i := 0; i < cfg.Subs; i++ {
-		ctx, cancel := context.WithCancel(context.WithValue(context.Background(), vsubKey{}, i))
-		sb := &vsubSub{idx: i, ctx: ctx, cancel: cancel}
-		s.subs = append(s.subs, sb)
-		ch, err := s.svc.Subscribe(ctx, chain.ns[cfg.nsOf(i)])
-		if err != nil {
-			s.fail("harness: Subscribe: %v", err)
+		s.subs = append(s.subs, &vsubSub{idx: i})
+	}
+	for i := 0; i < cfg.Subs && !cfg.LateSubs; i++ {
+		if !s.subscribe(i) {
 			return s
-		}
-		sb.ch = ch
-		sb.feed = <-feeds
-		if cap(ch) != vsubBufCap {
-			s.fail("C20/buffer-capacity: the response channel holds %d responses, the property states %d", cap(ch), vsubBufCap)
 		}
 	}
 	synctest.Wait()
@@ -501,6 +512,39 @@ prefill:
 	return s
 }
 
+// subscribe opens subscription i on the service as it is now.
+func (s *vsubSys) subscribe(i int) bool {
+	sb := s.subs[i]
+	ctx, cancel := context.WithCancel(context.WithValue(context.Background(), vsubKey{}, i))
+	sb.ctx, sb.cancel = ctx, cancel
+	ch, err := s.svc.Subscribe(ctx, s.chain.ns[s.cfg.nsOf(i)])
+	if err != nil {
+		s.fail("harness: Subscribe: %v", err)
+		return false
+	}
+	s.mu.Lock()
+	sb.created = true
+	sb.stopSeen = s.stopped // a stream opened on a stopped service has its reason to end from the start
+	s.mu.Unlock()
+	sb.ch = ch
+	sb.feed = <-s.feeds
+	if cap(ch) != vsubBufCap {
+		s.fail("C20/buffer-capacity: the response channel holds %d responses, the property states %d", cap(ch), vsubBufCap)
+	}
+	return true
+}
+
+// markStopped (s.mu held): the service stops now; every open stream has its reason to end.
+func (s *vsubSys) markStopped() {
+	s.life++
+	s.stopped = true
+	for _, o := range s.subs {
+		if o.created {
+			o.stopSeen = true
+		}
+	}
+}
+
 func (s *vsubSys) applyQuiet(ev string) {
 	if s.err != nil {
 		return
@@ -509,7 +553,7 @@ func (s *vsubSys) applyQuiet(ev string) {
 }
 
 func (s *vsubSys) hdrEnabled(sb *vsubSub) bool {
-	return !sb.terminated(s.stopped) && !s.busy(sb) && sb.taken < s.total() && sb.taken < len(s.feed)
+	return sb.created && !sb.terminated() && !s.busy(sb) && sb.taken < s.total() && sb.taken < len(s.feed)
 }
 
 // joined: the subscription owes a response for its last header, has no collaborator call of its
@@ -583,6 +627,12 @@ func (s *vsubSys) enabledNow() []string {
 	var ev []string
 	live := false
 	for i, sb := range s.subs {
+		if !sb.created {
+			if s.cfg.LateSubs {
+				ev = append(ev, fmt.Sprintf("sub:%d", i))
+			}
+			continue
+		}
 		if sb.pending != nil {
 			c := sb.pending
 			for _, a := range s.cfg.Answers {
@@ -597,14 +647,14 @@ func (s *vsubSys) enabledNow() []string {
 		}
 		if s.hdrEnabled(sb) {
 			ev = append(ev, fmt.Sprintf("hdr:%d", i))
-			if s.cfg.HdrStop && !s.stopped {
+			if s.cfg.HdrStop && !s.stopped && (s.cfg.Lifecycle == 0 || s.life < s.cfg.Lifecycle) {
 				ev = append(ev, fmt.Sprintf("hdrstop:%d", i))
 			}
 		}
 		if len(sb.ch) > 0 {
 			ev = append(ev, fmt.Sprintf("read:%d", i))
 		}
-		if !sb.terminated(s.stopped) {
+		if !sb.terminated() {
 			live = true
 			if s.cfg.Cancel {
 				ev = append(ev, fmt.Sprintf("cancel:%d", i))
@@ -614,7 +664,11 @@ func (s *vsubSys) enabledNow() []string {
 			}
 		}
 	}
-	if s.cfg.Stop && !s.stopped && live {
+	if s.cfg.Lifecycle > 0 {
+		if s.life < s.cfg.Lifecycle {
+			ev = append(ev, "stop", "start") // also Stop on a stopped and Start on a running service
+		}
+	} else if s.cfg.Stop && !s.stopped && live {
 		ev = append(ev, "stop")
 	}
 	if s.ga.pending != nil {
@@ -654,7 +708,7 @@ func (s *vsubSys) Apply(ev string) error {
 		if parts[0] == "hdrstop" {
 			// a header and the service stop arrive together and the subscription's select takes
 			// the header: hand the header over (which commits the select), stop at once
-			s.stopped = true
+			s.markStopped()
 		}
 		h := s.chain.blocks[s.feed[sb.taken]-1].hdr
 		sb.taken++
@@ -729,9 +783,30 @@ func (s *vsubSys) Apply(ev string) error {
 		close(sb.feed)
 	case "stop":
 		s.mu.Lock()
-		s.stopped = true
+		s.markStopped()
 		s.mu.Unlock()
 		_ = s.svc.Stop(context.Background())
+	case "start":
+		s.mu.Lock()
+		s.life++
+		for _, o := range s.subs {
+			if o.created && !s.stopped && !o.terminated() {
+				o.swapped = true // Start on the running service
+			}
+			if o.created && s.stopped && o.stopSeen {
+				o.restarted = true
+			}
+		}
+		s.stopped = false
+		s.mu.Unlock()
+		if err := s.svc.Start(context.Background()); err != nil {
+			s.fail("harness: Start: %v", err)
+		}
+	case "sub":
+		if sb.created {
+			return fmt.Errorf("harness: subscription %d exists", sb.idx)
+		}
+		s.subscribe(sb.idx)
 	default:
 		return fmt.Errorf("harness: unknown event %q", ev)
 	}
@@ -951,7 +1026,7 @@ func (s *vsubSys) judge() {
 		}
 		if sb.late > 1 {
 			s.failLocked("C20/no-termination/after=%s: subscription %d started %d further retrieval attempts after %s (retrieval keeps failing, stream still open)",
-				sb.cause(s.stopped), sb.idx, sb.late, sb.cause(s.stopped))
+				sb.cause(), sb.idx, sb.late, sb.cause())
 			return
 		}
 	}
@@ -962,7 +1037,17 @@ func (s *vsubSys) snapshot() string {
 	defer s.mu.Unlock()
 	var b strings.Builder
 	fmt.Fprintf(&b, "stopped=%v", s.stopped)
+	if s.cfg.Lifecycle > 0 {
+		fmt.Fprintf(&b, " life=%d", s.life)
+	}
 	for _, sb := range s.subs {
+		if !sb.created {
+			fmt.Fprintf(&b, " | sub%d absent", sb.idx)
+			continue
+		}
+		if s.cfg.Lifecycle > 0 {
+			fmt.Fprintf(&b, " | sub%d stopSeen=%v swapped=%v restarted=%v", sb.idx, sb.stopSeen, sb.swapped, sb.restarted)
+		}
 		p := "-"
 		if sb.pending != nil {
 			p = fmt.Sprintf("%s@%d/ctxdone=%v", sb.pending.kind, sb.pending.height, sb.pending.ctx.Err() != nil)
@@ -1026,7 +1111,7 @@ func (s *vsubSys) probe() {
 	s.mu.Lock()
 	defer s.mu.Unlock()
 	for _, sb := range s.subs {
-		term := sb.terminated(s.stopped)
+		term := sb.terminated()
 		if sb.closed && !term {
 			s.failLocked("C20/closed-without-cause: subscription %d stream is closed although the subscriber did not cancel, the service runs, the feed is open and the subscriber was at most %d responses behind (took %d headers, read %d)",
 				sb.idx, vsubBufCap-1, sb.taken, sb.readN)
@@ -1034,7 +1119,7 @@ func (s *vsubSys) probe() {
 		}
 		if term && !s.busy(sb) && !sb.closed {
 			s.failLocked("C20/not-closed/after=%s: subscription %d stream is still open after %s although no retrieval is running (took %d headers, read %d)",
-				sb.cause(s.stopped), sb.idx, sb.cause(s.stopped), sb.taken, sb.readN)
+				sb.cause(), sb.idx, sb.cause(), sb.taken, sb.readN)
 			return
 		}
 		inflight := 0
@@ -1080,10 +1165,12 @@ func (s *vsubSys) overlap() bool {
 
 func (s *vsubSys) outcome(sb *vsubSub) string {
 	switch {
+	case !sb.created:
+		return "absent"
 	case sb.closed:
-		return "closed/" + sb.cause(s.stopped)
-	case s.busy(sb) && sb.terminated(s.stopped):
-		return "terminating(retrieval running)/" + sb.cause(s.stopped)
+		return "closed/" + sb.cause()
+	case s.busy(sb) && sb.terminated():
+		return "terminating(retrieval running)/" + sb.cause()
 	case s.busy(sb):
 		return "open/retrieving"
 	default:
@@ -1144,6 +1231,12 @@ func (s *vsubSys) drain() error {
 				progress = true
 				continue
 			}
+			if !sb.created && s.cfg.LateSubs && !s.stopped {
+				// a stream opened now, on the running service, must work like any other
+				_ = s.Apply(fmt.Sprintf("sub:%d", i))
+				progress = true
+				continue
+			}
 			if s.hdrEnabled(sb) && !sb.closed {
 				_ = s.Apply(fmt.Sprintf("hdr:%d", i))
 				progress = true
@@ -1167,12 +1260,12 @@ func (s *vsubSys) drain() error {
 		if sb.pending != nil {
 			return fmt.Errorf("C20/drain-no-progress: subscription %d still retrieves height %d after %d successful answers", sb.idx, sb.pending.height, limit)
 		}
-		if !sb.terminated(s.stopped) && sb.readN != s.total() {
+		if sb.created && !sb.terminated() && sb.readN != s.total() {
 			return fmt.Errorf("C20/response-missing: subscription %d delivered %d of %d headers in the fair continuation", sb.idx, sb.readN, s.total())
 		}
 	}
 	for i, sb := range s.subs {
-		if !sb.terminated(s.stopped) {
+		if sb.created && !sb.terminated() {
 			_ = s.Apply(fmt.Sprintf("cancel:%d", i))
 		}
 	}
@@ -1194,7 +1287,7 @@ func (s *vsubSys) countOutcomes() {
 	}
 	for _, sb := range s.subs {
 		vsubRunStats.outcomes[s.outcome(sb)]++
-		if sb.fclosed && sb.pending != nil && !sb.cancelled && !s.stopped {
+		if sb.fclosed && sb.pending != nil && !sb.cancelled && !sb.stopSeen {
 			vsubRunStats.feedCloseBusy++
 		}
 	}
@@ -1355,6 +1448,9 @@ func vsubConfigs(tier string) []vsubCfg {
 			// overlapping retrievals of the same (height, namespace)
 			full(vsubCfg{Name: "same-namespace", Subs: 2, SameNS: true, Headers: 2, Depth: whole}),
 			{Name: "sub-and-getall", Subs: 1, GetAlls: 2, Headers: 2, Answers: noNF, Cancel: true, Stop: true, FClose: true, Depth: whole},
+			// lifecycle of the one service instance: Stop/Start in any state (stop twice, start twice,
+			// restart), subscriptions opened by an event - before, between and after
+			{Name: "lifecycle", Subs: 2, LateSubs: true, Lifecycle: 4, Headers: 2, Answers: []string{"ok", "fail"}, Cancel: true, Depth: 9},
 		}
 	}
 	return []vsubCfg{
@@ -1373,6 +1469,8 @@ func vsubConfigs(tier string) []vsubCfg {
 		{Name: "sub-and-getall", Subs: 1, GetAlls: 3, Headers: 3, Answers: noNF, Cancel: true, Stop: true, FClose: true, HdrStop: true, Depth: whole},
 		{Name: "sub-and-getall-hdr-getter", Subs: 1, GetAlls: 2, Headers: 2, HdrGetterBlocks: true, Answers: noNF, Cancel: true, Stop: true, Depth: whole},
 		{Name: "same-namespace-and-getall", Subs: 2, SameNS: true, GetAlls: 1, Headers: 2, Answers: noNF, Cancel: true, Stop: true, Depth: whole},
+		{Name: "lifecycle", Subs: 2, LateSubs: true, Lifecycle: 4, Headers: 2, Answers: []string{"ok", "fail", "dl"}, Cancel: true, FClose: true, Depth: whole},
+		{Name: "lifecycle-single-deep", Subs: 1, LateSubs: true, Lifecycle: 6, Headers: 3, Answers: all, Cancel: true, FClose: true, HdrStop: true, Depth: whole},
 		// last: the largest run takes whatever budget is left
 		full(vsubCfg{Name: "two-subs-overflow", Subs: 2, Prefill: 15, Headers: 3, Depth: 13}),
 	}
